@@ -259,15 +259,30 @@ def run_case(case, ctx):
                         except ValueError:
                             pass
                 elif op == "write":
-                    if not live:
+                    if not live and bid in handles and s.get("stale"):
+                        # an event operation through the handle of a bucket that has been deleted since: whatever it
+                        # answers or raises, the bucket map must stay as it is (checked below: store unchanged, listing
+                        # and every description equal to the model)
+                        ctx.count("missing_bucket_probes")
+                        ctx.count("event_operations_through_a_handle_of_a_deleted_bucket")
+                        nontriv += 1
+                        state = "stale-handle"
+                        h = handles[bid]
+                        for attempt in (lambda: h.insert(mk_event(s["evs"][0])), lambda: h.get(1), lambda: h.get_eventcount()):
+                            try:
+                                attempt()
+                            except Exception:  # noqa: BLE001 - the refusal may take any form
+                                pass
+                    elif not live:
                         continue
-                    b = handles[bid] if (s["stale"] and bid in handles) else ds[bid]
-                    evs = [mk_event(e) for e in s["evs"]]
-                    if len(evs) == 1:
-                        b.insert(evs[0])
                     else:
-                        b.insert(evs)
-                    events[bid] += [e["data"]["uid"] for e in s["evs"]]
+                        b = handles[bid] if (s["stale"] and bid in handles) else ds[bid]
+                        evs = [mk_event(e) for e in s["evs"]]
+                        if len(evs) == 1:
+                            b.insert(evs[0])
+                        else:
+                            b.insert(evs)
+                        events[bid] += [e["data"]["uid"] for e in s["evs"]]
                 elif op == "lookup":
                     if live:
                         h = ds[bid]
